@@ -557,6 +557,14 @@ class Loader:
         if not placed_apps:
             return placed_apps, restored_apps
 
+        if servername not in self.cell.members():
+            # The server is below a bucket that is not part of the cell: the
+            # scheduler cannot see it, nothing can be (or stay) placed there.
+            _LOGGER.info('Server %s is not part of the cell', servername)
+            for appname in placed_apps:
+                self.backend.delete(z.path.placement(servername, appname))
+            return placed_apps, restored_apps
+
         presence_node = z.path.server_presence(servername)
         try:
             _, metadata = self.backend.get_with_metadata(presence_node)
